@@ -6,10 +6,9 @@ observations.
 
 RAM never crosses the pipe byte by byte: a bank is "pattern <seed>" (16384 bytes of the LCG below,
 the harness fills the real RAM with the same generator) plus a few explicit overrides; a file is a
-list of segments (`h<hex>` literal bytes, `p<seed>` a pattern bank, `q<seed>:<off>.<val>:…` a
-pattern bank with overrides, `z<seed>…`/`Z…` the same inside a stored/"deflated" wrapper are NOT
-expanded here — compression is a parameter of the model, see `inflateTag`); observations carry a
-64-bit FNV-1a hash per bank.
+list of segments (`h<hex>` literal bytes, `p<seed>[:<off>.<val>…]` a pattern bank with overrides,
+`z<desc>` a *compressed* bank, which stays a tag — compression is a parameter of the model, see
+`inflateTag`); observations carry a 64-bit FNV-1a hash per bank.
 
   fx <hex>                       select the repair flags (bit i = i-th field of `Fixes`)
   mach <slot> k=.. af=.. …       define machine <slot> (see `machOf`)
@@ -30,20 +29,13 @@ def patBank (seed : Nat) : Bytes :=
     | 0, _, acc => acc.reverse
     | n + 1, x, acc =>
       let x' := lcgNext x
-      go n x' (BitVec.ofNat 8 (x' >>> 56).toNat :: acc)
+      go n x' ((x' >>> 56).toUInt8.toBitVec :: acc)
   go 16384 (UInt64.ofNat seed * 0x9E3779B97F4A7C15 + 0x1234567) []
 
 def fnv (bs : Bytes) : UInt64 :=
   bs.foldl (fun h b => (h ^^^ UInt64.ofNat b.toNat) * 0x100000001b3) 0xcbf29ce484222325
 
 def hex64 (x : UInt64) : String := toHex 16 x.toNat
-
-/-- `off.val:off.val…` (hex) applied to a byte list -/
-def applyOv (b : Bytes) (s : String) : Bytes :=
-  (s.splitOn ":").foldl (fun b t =>
-    match t.splitOn "." with
-    | [o, v] => b.set (hexNatD o) (bv8 v)
-    | _ => b) b
 
 /-- `<seed>` or `<seed>:<off>.<val>:…` -/
 def bankOf (s : String) : Bytes :=
